@@ -26,6 +26,22 @@ CLAIMED = {
         note=CORR + "Partial: producer/consumer timing of the real runtime is sampled; the schedule-quantified statement is about "
              "the sequential stage function.", design="5/C02",
         technique="Coq proof (invariant by induction) + extracted-model correspondence"),
+    "C03": dict(
+        text="Theorem C03_segments (axiom-free): for every list of well-formed segments (valid frames of any type and length, "
+             "non-empty 0xD3-free runs) and every truncated tail the modelled stream handler delivers exactly the segments (adjacent "
+             "runs merged), each frame once as a typed message with its own bytes - induction over the segment list on lemmas "
+             "that characterise FetchNextMessageFrame on a frame, on junk followed by 0xD3, on junk at the end and on a truncated "
+             "frame. Correspondence: ~2000 segment lists per run incl. frames whose leader, type, payload or CRC contain 0xD3 and "
+             "truncation at every position of the boundary lengths.",
+        note=CORR + "Time fields are projected away.", design="5/C03",
+        technique="Coq proof (induction over segments) + extracted-model correspondence"),
+    "C12": dict(
+        text="Theorem C12_isolation (axiom-free): a frame with the length and leader of a valid frame whose CRC does not match "
+             "(any alteration of payload/CRC, new 0xD3 bytes included) is delivered as one non-RTCM message with exactly its bytes "
+             "and all other segments are delivered as without the corruption (same induction as C03 with a third segment kind). "
+             "Correspondence: ~1700 streams per run with a victim at every position and bit/burst/byte/0xD3/CRC corruption.",
+        note=CORR + "Time fields are projected away.", design="5/C12",
+        technique="Coq proof (induction over segments) + extracted-model correspondence"),
     "C06": dict(
         text="Theorem C06_true_time (axiom-free), a corollary of C17_any_start: for every start time T and every admissible "
              "history (any interleaving of GPS/Galileo/GLONASS/BeiDou MSM4/MSM7 frames, non-decreasing whole-millisecond "
